@@ -113,6 +113,7 @@ def observe(m, spec, seed):
 
 COQ_EXTRA = r'''From Coq Require Import FMapPositive.
 From Gen Require Import Elements SmilesTables.
+From Proofs Require Import WriterProofsTokens WriterProofsStream WriterProofsClosures.
 Import ListNotations.
 Open Scope Z_scope.
 (* the input functions w and tb are finite tables; they are looked up through a binary trie built once per case (the model calls
@@ -133,9 +134,15 @@ Definition wcase (g : mol) (w : list (Z * Z)) (spec : string) (tabs : stabs)
       String.eqb (match (if o_cx o then format_cxsmiles g ord else None) with
                   | Some cx => scat [" "%string; cx]
                   | None => EmptyString
-                  end) suffix
+                  end) suffix &&
+      (* the verified checker of C02_writer_text_tokenizes accepts the model's output *)
+      stream_ok out
   | _ => false
   end.
+(* additionally: the closure lists of the first component satisfy the hypothesis of C02_closure_numbers_consistent *)
+Definition wcase_ev (g : mol) (w : list (Z * Z)) (spec : string) (tabs : stabs)
+                 (strings : string) (order : list Z) (suffix : string) : bool :=
+  wcase g w spec tabs strings order suffix && events_ok g (wfun w) (tbfun order) (opts_of_spec spec).
 (* the same through Writer.smiles_text / smiles_strings (the definitions the theorems speak about) *)
 Definition wcase_full (g : mol) (w : list (Z * Z)) (spec : string) (tabs : stabs)
                  (strings : string) (order : list Z) (suffix : string) : bool :=
@@ -176,8 +183,8 @@ def weight_recipes(m, rng):
             ('ties', {n: rng.randrange(3) for n in nums}), ('constant', {n: 0 for n in nums})]
 
 
-def case_term(mname, wname, tname, spec, ob, full=False):
-    return (f'{"wcase_full" if full else "wcase"} {mname} {wname} {cs(spec)} {tname} '
+def case_term(mname, wname, tname, spec, ob, full=False, ev=False):
+    return (f'{"wcase_full" if full else ("wcase_ev" if ev else "wcase")} {mname} {wname} {cs(spec)} {tname} '
             f'{cs(",".join(ob["strings"]))} {lst(ob["order"], zraw)} {cs(ob["text"][len(ob["joined"]):])}')
 
 
@@ -228,13 +235,15 @@ SPECIAL = [
     # aromatic: pyrrole-type N, B, P, heteroatoms, charged, fused
     'c1cc[nH]c1', 'c1ccncc1', 'c1ccoc1', 'c1ccsc1', 'c1cc[se]c1', 'c1cc[pH]c1', 'c1ccpcc1', 'c1cc[bH]c1', 'c1cc[n+](C)cc1',
     'c1cc[o+]cc1', 'c1ccc2[nH]ccc2c1', 'Cn1cccc1', 'c1ccc(cc1)-c1ccccc1', 'c1cnc2[nH]cnc2c1', 'O=c1cc[nH]cc1', 'c1ccc2ncccc2c1',
-    '[cH-]1cccc1', 'c1cc[te]c1', 'c1ccc[as]c1',
+    '[cH-]1cccc1', 'c1cc[te]c1', 'c1ccc[as]c1', 'b1ccccc1', 'c1ccc2bcccc2c1', 'b1cc[nH]c1', 'c1ccpcc1',
     # multi-component
     'C1CC1.[Na+].[Cl-]', 'CC.CC.O', 'c1ccccc1.C1CC1.O', '[Na+].[Na+].[O-]S([O-])(=O)=O', 'C.C.C.C', '[CH3].[CH3]',
     # tetrahedral stereo
     'C[C@H](N)C(=O)O', 'C[C@@H](N)C(=O)O', '[C@H](F)(Cl)Br', '[C@](F)(Cl)(Br)I', '[C@]([H])(F)(Cl)Br', 'F[C@](Cl)(Br)[H]',
     'N[C@@H](C)C(=O)O', 'C[C@@H]1CC[C@H](C)CC1', 'C[C@H]1CCCO1', 'C[C@]12CC[C@H](C1)C2(C)C', 'C1C[C@H]1C', 'N1[C@H](C)CC1',
     '[C@@]1(F)(Cl)CCO1', 'OC[C@H]1O[C@@H](O)[C@H](O)[C@@H](O)[C@@H]1O', 'O[C@]12CCC[C@@]1(N)CC2', 'C1CC[C@]12CCCO2',
+    'CO[C@@H]1CC[C@@]2(CC1)Cc3ccc(cc3C24N=C(C)C(=N4)N)c5cncc(Br)c5',
+    'Oc1ccc2C[C@H]3N(CC4CC4)CC[C@@]56[C@@H](Oc1c25)c7[nH]c8ccccc8c7C[C@@]36O', 'C[C@@]12CC[C@H]1[C@@H]1CCC3=CC(=O)CC[C@]3(C)[C@H]1CC2',
     'C[S@](=O)CC', 'C[S@@](=O)c1ccccc1', 'C[P@](=O)(O)Cl', 'C[N@+](CC)(CCC)CCCC', 'C[Si@](F)(Cl)Br', '[C@H](C)(N)O',
     '[C@@H]1(C)CCCO1', 'C[C@H](O)[C@@H](N)C', 'C[C@H](O)[C@H](O)C', 'C[C@H]([CH2])O',
     # allenes / cumulenes
@@ -387,7 +396,7 @@ def corr_writer(ck, mols):
             if wkey not in wdone:
                 wdone[wkey] = f'w{i}{wkey}'
                 md.append(f'Definition w{i}{wkey} : list (Z * Z) := {zmap_term(ob["w"])}.')
-            local.append(case_term(f'm{i}', wdone[wkey], f't{i}', spec, ob, full=(n_cases % 16 == 0)))
+            local.append(case_term(f'm{i}', wdone[wkey], f't{i}', spec, ob, full=(n_cases % 16 == 0), ev=(n_cases % 4 == 1)))
             meta.append((name, m, spec, ob['text']))
             WRITTEN_TEXTS.append(ob['text'])
             n_cases += 1
@@ -410,7 +419,7 @@ def corr_writer(ck, mols):
                     continue
                 wn = f'w{i}c{rname}'
                 md.append(f'Definition {wn} : list (Z * Z) := {zmap_term(w)}.')
-                local.append(case_term(f'm{i}', wn, f't{i}', spec, ob))
+                local.append(case_term(f'm{i}', wn, f't{i}', spec, ob, ev=name in CLOSURE_HEAVY))
                 meta.append((name, m, f'weights={rname} {spec}', ob['text']))
                 WRITTEN_TEXTS.append(ob['text'])
                 n_cases += 1
@@ -443,7 +452,8 @@ def corr_writer(ck, mols):
     bad = [metas[k][i] for k, i in failing]
     ck.extra['writer_correspondence_cases'] = sum(len(c) for _, c in shards)
     ck.oblige('correspondence: Smiles._smiles / format(mol, spec) / str(mol) / smiles_atoms_order == Writer.smiles_tokens '
-              '(real weights, observed order as tie-break)', ok and not bad and api_ok, 'correspondence',
+              '(real weights, observed order as tie-break); every output accepted by the token-stream checker (stream_ok), '
+              'closure lists of every 4th case satisfy wf_events', ok and not bad and api_ok, 'correspondence',
               log or '; '.join(f'{n} spec={s!r} text={t!r}' for n, _, s, t in bad[:8]))
     if shards:
         ck.sample({'writer_case': shards[0][1][0][:600]})
@@ -1026,12 +1036,39 @@ def search_small_graphs(ck, max_atoms, decor, full_upto):
     return found
 
 
+def search_ring_stereo(ck, n_mols, n_orders):
+    """polycyclic stereo molecules in many random orders: the spellings in which a stereo atom (or a double-bond atom) carries a
+    closure that ends and one that starts, closures written on both sides of a stereo centre, marks on closure bonds"""
+    from chython import smiles
+    rng = random.Random(f'{ck.seed}:c02ring')
+    cand = [s for s in corpus.stereo_smiles() if sum(ch.isdigit() for ch in s) >= 6]
+    found = 0
+    n = 0
+    for smi in corpus.sample(cand, 4 * n_mols, ck.seed, 'c02ring'):
+        if n >= n_mols:
+            break
+        try:
+            m = smiles(smi)
+        except Exception:
+            continue
+        if m is None or m.rings_count < 3 or not sum(n_labels(m)):
+            continue
+        n += 1
+        ck.count('roundtrip:polycyclic-stereo-molecules')
+        for k in range(n_orders):
+            if roundtrip(ck, smi, m, 'r' + rng.choice(['', 'a', 'h']), f'{ck.seed}:ring:{n}:{k}', None):
+                found += 1
+                break
+    return found
+
+
 def search(ck, mols):
     quick = ck.tier == 'quick'
     rng = random.Random(f'{ck.seed}:c02search')
     rest = [x for x in mols if x[0] not in SPECIAL_SET]
     sub = mols if not quick else ([x for x in mols if x[0] in SPECIAL_SET] + rng.sample(rest, min(110, len(rest))))
     found = search_roundtrip(ck, sub, n_random=3 if quick else 5, full=not quick)
+    found += search_ring_stereo(ck, 45 if quick else 600, 10 if quick else 25)
     stereo_mols = [x for x in mols if sum(n_labels(x[1])) > 0 and '#' not in x[0]]
     found += search_stereoisomers(ck, stereo_mols if not quick else stereo_mols[:90], max_labels=5 if quick else 8)
     found += search_small_graphs(ck, 4 if quick else 5, DECOR[:5] if quick else DECOR, 3 if quick else 4)
@@ -1099,7 +1136,10 @@ def run(ck):
         'inputs of the model rather than modelled: the weights (_chiral_morgan / atoms_order values are taken from the implementation), CPython set '
         'iteration order (replaced by the observed written order as tie-break), the stereo registries (stereogenic_* / _stereo_* dictionaries)',
         'the parser / create_molecule / postprocess_molecule side of the round trip is not modelled here (C03 models the reader): the round trip as a whole '
-        'rests on the search of this check, the theorems cover the token level']
+        'rests on the search of this check, the theorems cover the token level (bracket atoms, token stream, closure numbers)',
+        'C02_writer_text_tokenizes and C02_closure_numbers_consistent have decidable hypotheses (wtoks_of/wtoks_ok, wf_events_b); they are evaluated on the '
+        'outputs of the model in the correspondence, not proved for every traversal',
+        'implicit_hydrogens None (undetermined: aromatic heteroatom before kekule(), valence error) is not counted as information the round trip can lose']
     ck.extra['rule'] = ('correspondence: special molecules (brackets, radicals, stereo, allenes, cis/trans in chains and rings, multi-component, special bonds), '
                         'corpus samples and random renumberings x format specs (canonical + 3 rotating of 15; all 15 for special and every 6th molecule); '
                         'tokenizer: every written text, all strings <= 2 (quick) / 3 characters over 33 SMILES characters, 600 corruptions of written texts; '
